@@ -136,7 +136,12 @@ func parseProg(text string) *rprog {
 			in.a, in.label = regNum(args[0]), args[1]
 		case "lb", "lh", "lw", "sb", "sh", "sw":
 			in.a = regNum(args[0])
-			in.imm, in.b = offreg(args[1])
+			if len(args) == 3 {
+				// this assembler's half-word store is written "sh data, offset, base"
+				in.imm, in.b = atoi(args[1]), regNum(args[2])
+			} else {
+				in.imm, in.b = offreg(args[1])
+			}
 		case "nop", "ret":
 		default:
 			panic("verifm: mnemonic " + in.op)
